@@ -8,6 +8,10 @@ mkdir -p .bin .cache .work
 tmp=.bin/check.$$
 ( cd mc && cp -f /repo/go.sum go.sum 2>/dev/null; go build -tags verif -o ../$tmp ./cmd/check ) || { echo "HARNESS-ERROR build failed"; rm -f $tmp; exit 2; }
 mv -f $tmp .bin/check-$1 || exit 2
+if [ "$1" = "C06" ] && [ "$2" != "replay" ]; then
+  # auxiliary free-running pass: the same harness bodies built with the race detector
+  ( cd mc && go build -race -tags verif -o ../.bin/check-race.$$ ./cmd/check ) && mv -f .bin/check-race.$$ .bin/check-race || { echo "HARNESS-ERROR race build failed"; exit 2; }
+fi
 case "$2" in
   replay) exec .bin/check-$1 -replayfile "$3" ;;
   quick|thorough) exec .bin/check-$1 -prop "$1" -tier "$2" ;;
